@@ -351,19 +351,16 @@ Definition photometry_one_ref (b : bbox) (W : img Z) (ny nx : Z) (data : img val
        end)
   end.
 
-(* reference: one iteration of PixelAperture.area_overlap: aper_weights[mask[slc_large]] = 0;
-   np.sum(aper_weights); None = NaN (no overlap) *)
+(* reference: one iteration of PixelAperture.area_overlap (as repaired by the committed fix
+   "area_overlap sums the same pixels as do_photometry"): np.sum(aper_weights[pixel_mask]) with
+   (slc_large, aper_weights, pixel_mask) = apermask._get_overlap_cutouts(data.shape, mask);
+   None = NaN (no overlap) *)
 Definition area_overlap_one_ref (b : bbox) (W : img Z) (ny nx : Z) (mask : option (img bool)) : val :=
   match overlap_slices b ny nx with
   | None => None
   | Some (large, small) =>
-      Some (zsum (map (fun jk =>
-                         if match mask with
-                            | None => false
-                            | Some m => get2 false m (fst (fst large) + fst jk) (fst (snd large) + snd jk)
-                            end
-                         then 0 else get2 0 W (fst (fst small) + fst jk) (fst (snd small) + snd jk))
-                      (offs (slen (fst large)) (slen (snd large)))))
+      Some (zsum (map (fun jk => get2 0 W (fst (fst small) + fst jk) (fst (snd small) + snd jk))
+                      (filter (phot_good mask W large small) (offs (slen (fst large)) (slen (snd large))))))
   end.
 
 (* image-wise helpers used to state the photometry clause: data - bkg; mask | ~isfinite(data) *)
